@@ -392,6 +392,14 @@ func e2eFlows(c *suiteCtx, e *testEnv, r *rng, s string) {
 				for _, m := range rdHiddenRe.FindAllStringSubmatch(rv.Body, -1) {
 					v := html.UnescapeString(m[1])
 					e2eMonitor(c, e, "sign-in page for app path, hidden rd", v, ctx())
+					// a plain same-site path (and query) requested before login is where the user lands: byte for byte
+					if q.rdModel == nil && rdIsPlain(s) && !strings.Contains(s, "#") { // (a browser never sends a fragment in the request target)
+						c.count("flow:app-path-plain")
+						if v != s {
+							c.violation("C06", "the page a user asked for before login is not the landing page offered after login (plain same-site path, byte for byte)",
+								map[string]interface{}{"requested": s, "landing": v, "proxy_prefix": prefix})
+						}
+					}
 					if pageComparable(v) {
 						c.emit(hx(v), append(append([]string{"rd.page"}, q.modelFields(e, s)...), hx(prefix+"/sign_in"), bs(false))...)
 					}
